@@ -84,6 +84,19 @@ def scenarios(draw):
         actions = [{'a': 'create', 'obj': 0, 'v': 1, 'dt': draw(st.sampled_from([0.5, 2.0]))},
                    {'a': 'peer_on', 'lifetime': 60, 'dt': draw(st.sampled_from([1.5, 2.5, 3.5, 5.0]))},
                    {'a': 'peer_off', 'dt': draw(st.sampled_from([0.5, 3.0, 10.0]))}] + actions[:draw(st.integers(0, 6))]
+    elif draw(st.integers(0, 5)) == 0:
+        # aim at a pause that begins while an instance is in its stopping stages for another reason (its object is being deleted
+        # or stopped matching): the streams are closed, no event will drive the remaining stages - the pausing operator must
+        peering = True
+        how = draw(st.sampled_from(['delete', 'mismatch']))
+        handlers[0] = {'kind': 'daemon', 'id': 'm0', 'behaviour': 'cancel', 'labels': {'on': 'yes'} if how == 'mismatch' else None, 'initial_delay': None,
+                       'cancellation_backoff': draw(st.sampled_from([3.0, 5.0])), 'cancellation_timeout': draw(st.sampled_from([1.0, 4.0])),
+                       'exit_delay': 0, 'duration': 0, 'script': []}
+        first = [{'a': 'create', 'obj': 0, 'v': 1, 'dt': 0.0}, {'a': 'label', 'obj': 0, 'v': 'yes', 'dt': draw(st.sampled_from([1.0, 2.0]))}]
+        first.append({'a': 'delete', 'obj': 0, 'dt': 0.0} if how == 'delete' else {'a': 'label', 'obj': 0, 'v': 'no', 'dt': 0.0})
+        first[-1]['dt'] = draw(st.sampled_from([0.1, 0.5, 1.0, 2.0]))
+        actions = first + [{'a': 'peer_on', 'lifetime': 60, 'dt': draw(st.sampled_from([15.0, 25.0]))},
+                           {'a': 'peer_off', 'dt': draw(st.sampled_from([0.5, 3.0]))}]
     end = draw(st.sampled_from(['run', 'run', 'stop']))
     spec = {'handlers': handlers, 'settings': {'background.cancellation_polling': 2.0, 'persistence.consistency_timeout': 1.0,
                                                'peering.priority': 10, 'queueing.idle_timeout': draw(st.sampled_from([5.0, 0.5]))}}
@@ -147,6 +160,13 @@ def run_case(sc):
     finally:
         run.close()
     return res
+
+
+
+def rematch_possible(h, evs, vers, t_req):
+    """(finding P's precondition: the object matched again after the instance was asked to stop for a mismatch)"""
+    return any(t >= t_req - EPS and typ != 'DELETED' and vers.get(rv) is not None and matches(h, vers[rv]['body'])
+               and not vers[rv]['body']['metadata'].get('deletionTimestamp') for (t, typ, rv, tick) in evs)
 
 
 def check(run, res, sc, livelock, t_stop):
@@ -286,6 +306,13 @@ def check(run, res, sc, livelock, t_stop):
                             paused = any(p0 <= t_req + need + 1.0 and (p1 is None or p1 >= t_req) for (p0, p1) in pauses)
                             if orphaned:
                                 res.known.append({'id': FINDING_B, 'msg': f'daemon {hid} of {uid} was asked to stop at {t_req}, then the object vanished without a deletion mark: the staged termination never continued'})
+                            elif paused and not rematch_possible(h, evs, vers, t_req) and any(
+                                    p0 <= t_req + need + 1.0 and (p1 if p1 is not None else sim.world.now) - max(p0, t_req) > need + h['cancellation_timeout'] + 5.0
+                                    and (t_stop is None or t_stop > max(p0, t_req) + need + 5.0) for (p0, p1) in pauses):
+                                # the operator paused while the instance was in its stopping stages: no event will come to drive them on
+                                # (the streams are closed), the pausing operator itself has to go through them
+                                res.fail('C09/D3-never-cancelled-in-pause', f'daemon {hid} of {uid} ignores the stop flag; asked to stop at {t_req} (backoff {need}, '
+                                         f'timeout {h["cancellation_timeout"]}), the operator paused {[(p0, p1) for (p0, p1) in pauses]}: it was never cancelled until {sim.world.now}')
                             elif not paused and sim.world.now > t_req + need + h['cancellation_timeout'] + 10.0 and (t_stop is None or t_stop > t_req + need + 1.0):
                                 rematched = any(t >= t_req - EPS and typ != 'DELETED' and vers.get(rv) is not None and matches(h, vers[rv]['body'])
                                                 and not vers[rv]['body']['metadata'].get('deletionTimestamp')
